@@ -96,8 +96,12 @@ package route
 //@   ensures t == nil ==> atomStored[addrOf(table)] == old(atomStored[addrOf(table)])
 //@   ensures t != nil ==> typeIs(atomStored[addrOf(table)], Table) && unbox(atomStored[addrOf(table)], Table) == t
 //@
+//@ // the table currently installed, and what every lookup may rely on about it
+//@ spec fun activeTbl() Table = unbox(atomStored[addrOf(table)], Table)
+//@ spec fun tableReady() bool = typeIs(atomStored[addrOf(table)], Table) && wfTable(activeTbl()) && targetsOK(activeTbl())
+//@
 //@ func GetTable
-//@   props C02
+//@   props C02 C16
 //@   requires typeIs(atomStored[addrOf(table)], Table)
 //@   assigns nothing
 //@   ensures nopanic
